@@ -236,20 +236,31 @@ def build_fs(scen, factory=None):
 # --------------------------------------------------------------------------
 # execution and oracles
 
-def parse_labels_file(text):
+def parse_labels_file(text, names):
+    """One line per label with its final address.  The exact layout is not part of the statement: a line must hold the
+    label name as a token and, among its other tokens, exactly one integer (any base, punctuation such as = : , ignored)."""
     out = {}
     lines = [l for l in text.split('\n') if l.strip()]
     for l in lines:
-        parts = l.split()
-        if len(parts) != 2:
+        toks = [t.strip('=:,;()[]') for t in l.replace('=', ' ').replace(':', ' ').split()]
+        toks = [t for t in toks if t]
+        name = [t for t in toks if t in names]
+        if len(name) != 1 or name[0] in out:
             return None, len(lines)
-        try:
-            v = int(parts[1], 0)
-        except ValueError:
+        rest = list(toks)
+        rest.remove(name[0])
+        ints = []
+        for t in rest:
+            try:
+                ints.append(int(t, 0))
+            except ValueError:
+                try:
+                    ints.append(int(t, 16) if any(c in 'abcdefABCDEF' for c in t) else int(t))
+                except ValueError:
+                    pass
+        if len(set(ints)) != 1:
             return None, len(lines)
-        if parts[0] in out:
-            return None, len(lines)
-        out[parts[0]] = v
+        out[name[0]] = ints[0]
     return out, len(lines)
 
 
@@ -261,7 +272,7 @@ def cross_validate(scen, res):
     for factory in (SimFS, RealFS):
         fs = build_fs(scen, factory)
         x = asmsim.run_cli(fs, scen['argv'], core.EventLog(0))
-        tree = {p: d for p, d in fs.files.items() if not p.startswith('/repo')}
+        tree = {p: d for p, d in fs.files.items() if not p.startswith(core.REPO + '/')}
         outs.append((x['outcome'], x['code'], (x['msg'] or '').replace('\n', ' | ')[:300], tree))
     a, b = outs
     if a[:2] != b[:2] or a[3] != b[3] or a[2] != b[2]:
@@ -367,7 +378,7 @@ def run_scenario(scen, keep_events=False):
                             % (paths['out'], 'nothing' if got is None else '%d bytes %s' % (len(got), got[:12].hex()), len(want), want[:12].hex(), scen['argv']))
             if paths['labels']:
                 txt = fs.files.get(paths['labels'])
-                parsed, nlines = (None, 0) if txt is None else parse_labels_file(txt.decode('utf-8', 'replace'))
+                parsed, nlines = (None, 0) if txt is None else parse_labels_file(txt.decode('utf-8', 'replace'), set(ref['labels']))
                 if parsed is None or parsed != ref['labels'] or nlines != len(ref['labels']):
                     res.violate('wrong-output', 'labels', '-l file %s does not hold one line per label with its final address: file=%r api=%r'
                                 % (paths['labels'], None if txt is None else txt[:120], ref['labels']))
